@@ -199,6 +199,32 @@ def run(tier, seed=0, shard=(0, 1)):
                 continue        # quick: every depth-1 circuit, a quarter of the deeper ones
             check(rep, c)
             rep.sample(repr(c))
+    # multi-step sequences: a qubit is removed (discarded, post-selected, measured), then wires are swapped, then
+    # gates that tell the wires apart -- the wire-to-register map is no longer the identity
+    if True:
+        prep = Ket(0, 0, 0) >> gates.H @ gates.X @ Rx(0.3)
+        removals = [Discard(), Bra(0), Measure()]
+        tails = [Id(1) @ gates.X >> Measure() @ Measure(), gates.CX >> Measure() @ Discard(), Rz(0.2) @ gates.H >> Measure() @ Measure()]
+        for pos in (0, 1, 2):
+            for rem in removals:
+                mid = Id(qubit ** pos) @ rem @ Id(qubit ** (2 - pos))
+                kept = mid.cod
+                nb = kept.count(bit)
+                for tail in tails:
+                    for do_swap in (True, False):
+                        idx += 1
+                        if idx % shard[1] != shard[0]:
+                            continue
+                        c = prep >> mid
+                        # bring the bit (if any) to the right end so that the two remaining qubits are adjacent
+                        if nb:
+                            k = list(kept).index(bit[0])
+                            for j in range(k, 2):
+                                c = c >> Id(c.cod[:j]) @ circuit.Swap(c.cod[j:j + 1], c.cod[j + 1:j + 2]) @ Id(c.cod[j + 2:])
+                        if do_swap:
+                            c = c >> gates.SWAP @ Id(c.cod[2:])
+                        c = c >> tail @ Id(c.cod[2:])
+                        check(rep, c)
     for combo, tkc in tket_circuits(min(depth, 2)):
         idx += 1
         if idx % shard[1] != shard[0] or (tier == 'quick' and (idx // shard[1]) % 5):
